@@ -12,6 +12,7 @@ import (
 )
 
 func init() {
+	sym.Register("c04.HChain", HChain)
 	sym.Register("c04.HLink", HLink)
 }
 
@@ -217,4 +218,82 @@ func must(c int) {
 	if c != 0 {
 		panic("setup failed: " + hx.CodeName(c))
 	}
+}
+
+// HChain: a chain of L symbolic links /w/l1 -> l2 -> ... -> lL -> a/a (L chosen
+// by the solver in lo..hi, around the kernel's limit of 40 links per walk), the
+// chain entered directly (/w/l1) or below a linked directory; every
+// link-following call answers as the model (natively: as the kernel).
+func HChain(lo, hi int) {
+	L := sym.Int("L")
+	sym.Assume(L >= lo && L <= hi)
+	L = sym.Concretize(L)
+	v := hx.NewBareMemFS()
+	impl := world(sysx.ImplSys{V: v})
+	model := world(sysx.ModelSys{F: posix.New()})
+	var kern *sysx.KernelSys
+	if sym.Native() {
+		kern = sysx.NewKernelChroot()
+		defer kern.Done()
+	}
+	build := func(w sysx.Sys) {
+		must(w.MkdirAll("/w/a", 0o755))
+		c, c2 := w.OpenWrite("/w/a/a", 1|0x40|0x200, 0o644, []byte("x"))
+		must(c)
+		must(c2)
+		for i := 1; i <= L; i++ {
+			t := "l" + hx.Itoa(i+1)
+			if i == L {
+				t = "a/a"
+			}
+			must(w.Symlink(t, "/w/l"+hx.Itoa(i)))
+		}
+		must(w.Symlink("/w", "/w/a/up"))
+	}
+	build(impl)
+	build(model)
+	if kern != nil {
+		build(kern)
+	}
+	entries := []string{"/w/l1", "/w/l2", "/w/a/up/l1", "/w/a/up/l3"}
+	ei := sym.Choose("entry", len(entries))
+	q := entries[ei]
+	opn := []string{"Stat", "ReadFile", "EvalSymlinks", "Chmod", "Truncate", "OpenCreate"}[sym.Choose("op", 6)]
+	label := "memfs|" + opn + "|chain|" + []string{"from-first-link", "from-second-link", "below-linked-dir-from-first", "below-linked-dir-from-third"}[ei]
+	sym.Label(label)
+	sym.Reach("chain")
+	do := func(w world) int {
+		switch opn {
+		case "Stat":
+			_, c := w.Stat(q)
+			return c
+		case "ReadFile":
+			_, c := w.ReadFile(q)
+			return c
+		case "EvalSymlinks":
+			_, c := w.EvalSymlinks(q)
+			if c != 0 {
+				c = 1 // the error value of EvalSymlinks is not an errno; compare success/failure
+			}
+			return c
+		case "Chmod":
+			return w.Chmod(q, 0o600)
+		case "Truncate":
+			return w.Truncate(q, 0)
+		}
+		c, _ := w.OpenWrite(q, 1|0x40, 0o644, nil)
+		return c
+	}
+	var ci int
+	res := sym.Outcome(func() { ci = do(impl) })
+	sym.Assert(!res.Panicked, "C04|"+label+"|panic|"+res.Class+"|"+res.Site)
+	cm := do(model)
+	if kern != nil {
+		ck := do(kern)
+		sym.Assert(ck == cm, "ORACLE|"+label+"|links-"+hx.Itoa(L)+"|kernel-"+hx.CodeName(ck)+"|model-"+hx.CodeName(cm))
+	}
+	sym.Observe("L", L)
+	sym.Observe("impl", ci)
+	sym.Observe("model", cm)
+	sym.Assert(ci == cm, "C04|"+label+"|errno|got-"+hx.CodeName(ci)+"|want-"+hx.CodeName(cm))
 }
